@@ -26,6 +26,12 @@ TARGETS = {
         ['time', 'context'],
         ['context.WithTimeout(ctx, cfg.Timeout)', 'case <-queueCtx.Done():', 'sem.Acquire(', 'time.Now()'],
     ),
+    # C34: the batch ticker, the 15 ms return-condition sleep and the processing timeout of the relay state machine
+    'protocol/relaycore/unified_relay_state_machine.go': (
+        ['time', 'context'],
+        ['context.WithTimeout(sm.ctx, processingTimeout)', 'time.NewTicker(relayTimeout)', 'time.Sleep(15 * time.Millisecond)',
+         'case <-startNewBatchTicker.C:', 'case <-processingCtx.Done():'],
+    ),
 }
 
 
